@@ -89,7 +89,11 @@ func (World) Generate(r *engine.RNG, tier string) *engine.Script {
 		}
 	}
 	if mode == 0 {
-		switch r.Intn(10) {
+		k := r.Intn(10)
+		if total > 6000 && k < 2 {
+			k = 9 // a byte-at-a-time peer on a 64 KiB frame costs quadratic time; use scripted cuts
+		}
+		switch k {
 		case 0:
 			s.Config["mss"] = 1 // slow peer: every cut point of every frame
 		case 1:
